@@ -112,6 +112,9 @@ def run_core(pid, tier, seed, plan):
             total["states"] += gres["distinct"]
             total["transitions"] += gres["generated"]
         total["behaviours_generated"] += len(beh)
+        if camp.get("require_action"):
+            # the campaign is about one kind of action: replay only behaviours that contain it
+            beh = [b for b in beh if any(a["a"] in camp["require_action"] for a in b)]
         sel, ntags = engine.select(beh, camp["budget"], seed, per_tag=camp.get("per_tag", 2),
                                    tagger=cplan.get("tagger"))
         total["tag_vectors"] += ntags
